@@ -384,6 +384,26 @@ Proof.
   - intros [-> ->]. ring.
 Qed.
 
+Lemma surplus_up_iff s0 s1 r c : 1 < s1 -> 0 <= r < 2 * s0 + 2 -> 0 <= c < s1 + 1 ->
+  (brick_surplus true s0 s1 r c <->
+   (r = 2 * s0 + 2 - 1 /\ c = 0) \/ (s1 mod 2 = 0 /\ r = 0 /\ c = s1 + 1 - 1) \/
+   (s1 mod 2 <> 0 /\ r = 2 * s0 + 2 - 1 /\ c = s1 + 1 - 1)).
+Proof.
+  intros E Hr Hc. unfold brick_surplus, brick_coord_to_index. rewrite (brick_sq_up s0 s1 E).
+  replace (1 <? s1) with true by lia. unfold np_ravel. rewrite in_box2 by assumption. cbn [option_map].
+  atoms; zb; split; intros H; try discriminate; try lia; try reflexivity.
+Qed.
+
+Lemma surplus_left_iff s0 s1 r c : 1 < s0 -> 0 <= r < s0 + 1 -> 0 <= c < 2 * s1 + 2 ->
+  (brick_surplus false s0 s1 r c <->
+   (r = 0 /\ c = 2 * s1 + 2 - 1) \/ (s0 mod 2 = 0 /\ r = s0 + 1 - 1 /\ c = 0) \/
+   (s0 mod 2 <> 0 /\ r = s0 + 1 - 1 /\ c = 2 * s1 + 2 - 1)).
+Proof.
+  intros E Hr Hc. unfold brick_surplus, brick_coord_to_index. rewrite (brick_sq_left s0 s1 E).
+  replace (1 <? s0) with true by lia. unfold np_ravel. rewrite in_box2 by assumption. cbn [option_map].
+  atoms; zb; split; intros H; try discriminate; try lia; try reflexivity.
+Qed.
+
 (** delete = False: the two surplus points are disconnected, nothing is renumbered *)
 Theorem brick_adj_disconnect_iff up s0 s1 r c r' c' : 1 <= s0 -> 1 <= s1 ->
   let q0 := fst (brick_sq up s0 s1) in let q1 := snd (brick_sq up s0 s1) in
@@ -394,47 +414,189 @@ Theorem brick_adj_disconnect_iff up s0 s1 r c r' c' : 1 <= s0 -> 1 <= s1 ->
 Proof.
   intros H0 H1 q0 q1 Hr Hc Hr' Hc'. rewrite brick_adj_unfold. cbv zeta. unfold brick_disconnect_extra.
   destruct (brick_extra up s0 s1) eqn:EX.
-  - unfold brick_disconnect_positions, brick_surplus, brick_coord_to_index. unfold brick_extra in EX.
+  - unfold brick_disconnect_positions. unfold brick_extra in EX.
     subst q0 q1. destruct up; zb.
-    + rewrite (brick_sq_up s0 s1 EX) in *. cbn [fst snd] in *. replace (1 <? s1) with true by lia.
-      cbn [fold_left]. rewrite !in_np_zero. rewrite fst_np_zero. cbn [fst snd].
-      unfold np_ravel. rewrite !in_box2 by assumption. cbn [option_map]. unfold norm_idx.
+    + rewrite (surplus_up_iff s0 s1 r c EX), (surplus_up_iff s0 s1 r' c' EX)
+        by (rewrite (brick_sq_up s0 s1 EX) in *; assumption).
+      rewrite (brick_sq_up s0 s1 EX) in *. cbn [fst snd] in *. replace (1 <? s1) with true by lia.
+      cbn [fold_left]. rewrite !in_np_zero. rewrite fst_np_zero. cbn [fst snd]. unfold norm_idx.
       set (q0 := 2 * s0 + 2) in *. set (q1 := s1 + 1) in *.
       assert (Q0 : 4 <= q0) by (unfold q0; lia). assert (S1 : s1 = q1 - 1) by (unfold q1; lia). rewrite S1.
       assert (Q1 : 3 <= q1) by lia. clearbody q0 q1. clear S1 EX H1.
-      assert (F : forall r c, 0 <= r < q0 -> 0 <= c < q1 ->
-                  (r * q1 + c = (q0 - 1) * q1 <-> r = q0 - 1 /\ c = 0) /\
-                  (r * q1 + c = q1 - 1 <-> r = 0 /\ c = q1 - 1) /\
-                  (r * q1 + c = q0 * q1 - 1 <-> r = q0 - 1 /\ c = q1 - 1)).
-      { intros x y Hx Hy. apply grid_pos_facts; lia. }
-      destruct (F r c Hr Hc) as [F1 [F2 F3]]. destruct (F r' c' Hr' Hc') as [G1 [G2 G3]].
-      assert (NN : 0 <= (q0 - 1) * q1) by (apply Z.mul_nonneg_nonneg; lia). clear F.
+      destruct (grid_pos_facts q0 q1 r c ltac:(lia) Hr Hc) as [F1 [F2 F3]].
+      destruct (grid_pos_facts q0 q1 r' c' ltac:(lia) Hr' Hc') as [G1 [G2 G3]].
+      assert (NN : 0 <= (q0 - 1) * q1) by (apply Z.mul_nonneg_nonneg; lia).
       replace ((q0 - 1) * q1 <? 0) with false by lia.
-      split.
-      * intros [[H [A1 A2]] [B1 B2]]. split; [exact H|]. revert A1 A2 B1 B2. atoms; zb; intros; split; intro; try discriminate; lia.
-      * intros [H [S1 S2]]. revert S1 S2. atoms; zb; intros;
-          try (exfalso; apply S1; reflexivity); try (exfalso; apply S2; reflexivity);
-          repeat split; try assumption; lia.
-    + rewrite (brick_sq_left s0 s1 EX) in *. cbn [fst snd] in *. replace (1 <? s0) with true by lia.
-      cbn [fold_left]. rewrite !in_np_zero. rewrite fst_np_zero. cbn [fst snd].
-      unfold np_ravel. rewrite !in_box2 by assumption. cbn [option_map]. unfold norm_idx.
+      rewrite <- F1, <- F2, <- F3, <- G1, <- G2, <- G3. clear F1 F2 F3 G1 G2 G3.
+      set (k := r * q1 + c) in *. set (k' := r' * q1 + c') in *. set (A := (q0 - 1) * q1) in *. set (N := q0 * q1) in *.
+      clearbody k k' A N.
+      destruct (q1 mod 2 =? 0) eqn:P; zb.
+      * assert (M : (q1 - 1) mod 2 = 1) by lia. rewrite M. clear P M. replace (-1 <? 0) with true by reflexivity.
+        split; [intros [[H [A1 A2]] [B1 B2]]; split; [exact H|]; split; intro; lia
+               |intros [H [S1 S2]]; repeat split; try assumption; intro; lia].
+      * assert (M : (q1 - 1) mod 2 = 0) by lia. rewrite M. clear P M. replace (q1 - 1 <? 0) with false by lia.
+        split; [intros [[H [A1 A2]] [B1 B2]]; split; [exact H|]; split; intro; lia
+               |intros [H [S1 S2]]; repeat split; try assumption; intro; lia].
+    + rewrite (surplus_left_iff s0 s1 r c EX), (surplus_left_iff s0 s1 r' c' EX)
+        by (rewrite (brick_sq_left s0 s1 EX) in *; assumption).
+      rewrite (brick_sq_left s0 s1 EX) in *. cbn [fst snd] in *. replace (1 <? s0) with true by lia.
+      cbn [fold_left]. rewrite !in_np_zero. rewrite fst_np_zero. cbn [fst snd]. unfold norm_idx.
       set (q0 := s0 + 1) in *. set (q1 := 2 * s1 + 2) in *.
       assert (Q1 : 4 <= q1) by (unfold q1; lia). assert (S0 : s0 = q0 - 1) by (unfold q0; lia). rewrite S0.
       assert (Q0 : 3 <= q0) by lia. clearbody q0 q1. clear S0 EX H0.
-      assert (F : forall r c, 0 <= r < q0 -> 0 <= c < q1 ->
-                  (r * q1 + c = (q0 - 1) * q1 <-> r = q0 - 1 /\ c = 0) /\
-                  (r * q1 + c = q1 - 1 <-> r = 0 /\ c = q1 - 1) /\
-                  (r * q1 + c = q0 * q1 - 1 <-> r = q0 - 1 /\ c = q1 - 1)).
-      { intros x y Hx Hy. apply grid_pos_facts; lia. }
-      destruct (F r c Hr Hc) as [F1 [F2 F3]]. destruct (F r' c' Hr' Hc') as [G1 [G2 G3]].
-      assert (NN : 0 <= (q0 - 1) * q1) by (apply Z.mul_nonneg_nonneg; lia). clear F.
+      destruct (grid_pos_facts q0 q1 r c ltac:(lia) Hr Hc) as [F1 [F2 F3]].
+      destruct (grid_pos_facts q0 q1 r' c' ltac:(lia) Hr' Hc') as [G1 [G2 G3]].
+      assert (NN : 0 <= (q0 - 1) * q1) by (apply Z.mul_nonneg_nonneg; lia).
       replace (q1 - 1 <? 0) with false by lia.
-      split.
-      * intros [[H [A1 A2]] [B1 B2]]. split; [exact H|]. revert A1 A2 B1 B2. atoms; zb; intros; split; intro; try discriminate; lia.
-      * intros [H [S1 S2]]. revert S1 S2. atoms; zb; intros;
-          try (exfalso; apply S1; reflexivity); try (exfalso; apply S2; reflexivity);
-          repeat split; try assumption; lia.
+      rewrite <- F1, <- F2, <- F3, <- G1, <- G2, <- G3. clear F1 F2 F3 G1 G2 G3.
+      set (k := r * q1 + c) in *. set (k' := r' * q1 + c') in *. set (A := (q0 - 1) * q1) in *. set (N := q0 * q1) in *.
+      clearbody k k' A N.
+      destruct (q0 mod 2 =? 1) eqn:P; zb.
+      * assert (M : (q0 - 1) mod 2 = 0) by lia. rewrite M. clear P M. replace (A <? 0) with false by lia.
+        split; [intros [[H [A1 A2]] [B1 B2]]; split; [exact H|]; split; intro; lia
+               |intros [H [S1 S2]]; repeat split; try assumption; intro; lia].
+      * assert (M : (q0 - 1) mod 2 = 1) by lia. rewrite M. clear P M. replace (-1 <? 0) with true by reflexivity.
+        split; [intros [[H [A1 A2]] [B1 B2]]; split; [exact H|]; split; intro; lia
+               |intros [H [S1 S2]]; repeat split; try assumption; intro; lia].
   - assert (P : brick_disconnect_positions up s0 s1 = []).
     { unfold brick_disconnect_positions, brick_extra in *. destruct (brick_sq up s0 s1). destruct up; rewrite EX; reflexivity. }
     rewrite P. cbn [fold_left snd]. pose proof (surplus_noextra up s0 s1 r c EX). pose proof (surplus_noextra up s0 s1 r' c' EX). tauto.
+Qed.
+
+(** * assembling (A) (B) (C) *)
+Lemma np_unravel_some sh k cc : np_unravel sh k = Some cc -> 0 <= k < zprod sh /\ cc = unravel sh k.
+Proof.
+  unfold np_unravel. destruct (0 <=? k) eqn:E1; destruct (k <? zprod sh) eqn:E2; cbn [andb]; try discriminate.
+  intros [= <-]. zb. auto.
+Qed.
+
+Lemma brick_i2c_grid up del s0 s1 i r c : 1 <= s0 -> 1 <= s1 ->
+  brick_index_to_coord up del s0 s1 i = Some [r; c] ->
+  0 <= r < fst (brick_sq up s0 s1) /\ 0 <= c < snd (brick_sq up s0 s1) /\
+  r * snd (brick_sq up s0 s1) + c = (if del then brick_k up s0 s1 i else i).
+Proof.
+  intros H0 H1 E. destruct (brick_sq_pos up s0 s1 H0 H1) as [Q0 Q1].
+  unfold brick_index_to_coord, brick_k in *. destruct (brick_sq up s0 s1) as [q0 q1]. cbn [fst snd] in *.
+  assert (G : forall k, np_unravel [q0; q1] k = Some [r; c] -> 0 <= r < q0 /\ 0 <= c < q1 /\ r * q1 + c = k).
+  { intros k Hk. apply np_unravel_some in Hk as [Bk Ek]. 
+    assert (PS : pos_shape [q0; q1]) by (repeat constructor; lia).
+    pose proof (unravel_valid _ _ PS Bk) as V. rewrite <- Ek in V.
+    destruct (valid2' _ _ _ V) as [x [y [E2 [Hx Hy]]]]. injection E2 as -> ->.
+    split; [assumption|]. split; [assumption|]. rewrite <- ravel2 with (q0 := q0). rewrite Ek. apply ravel_unravel; assumption. }
+  destruct del.
+  - destruct (i <? brick_nsites up true s0 s1); [|discriminate]. apply G, E.
+  - apply G, E.
+Qed.
+
+Theorem brick_adjacency_iff up del s0 s1 i j r c r' c' : 1 <= s0 -> 1 <= s1 ->
+  0 <= i < brick_nsites up del s0 s1 -> 0 <= j < brick_nsites up del s0 s1 ->
+  brick_index_to_coord up del s0 s1 i = Some [r; c] -> brick_index_to_coord up del s0 s1 j = Some [r'; c'] ->
+  (In (i, j) (snd (brick_adj up del s0 s1)) <->
+   sq_nn up r c r' c' /\ ~ brick_surplus up s0 s1 r c /\ ~ brick_surplus up s0 s1 r' c').
+Proof.
+  intros H0 H1 Hi Hj Ei Ej.
+  destruct (brick_i2c_grid _ _ _ _ _ _ _ H0 H1 Ei) as [Br [Bc Ek]].
+  destruct (brick_i2c_grid _ _ _ _ _ _ _ H0 H1 Ej) as [Br' [Bc' El]].
+  rewrite <- (sq_pairs_iff up s0 s1 r c r' c' H0 H1 Br Bc Br' Bc'). destruct del.
+  - rewrite (brick_adj_delete_iff up s0 s1 i j H0 H1 Hi Hj). rewrite <- Ek, <- El.
+    destruct (brick_roundtrip up true s0 s1 i H0 H1 Hi) as [x [y [E1 [E2 _]]]].
+    destruct (brick_roundtrip up true s0 s1 j H0 H1 Hj) as [x' [y' [E3 [E4 _]]]].
+    rewrite Ei in E1. injection E1 as <- <-. rewrite Ej in E3. injection E3 as <- <-.
+    unfold brick_surplus. rewrite E2, E4. intuition discriminate.
+  - rewrite <- Ek, <- El. apply brick_adj_disconnect_iff; assumption.
+Qed.
+
+(** hexagonal lattice: adjacency = Euclidean distance 1 between the site positions *)
+Theorem hex_adjacency_iff up s0 s1 i j p p' : 1 <= s0 -> 1 <= s1 ->
+  0 <= i < hex_nsites s0 s1 -> 0 <= j < hex_nsites s0 s1 ->
+  hex_index_to_coord up s0 s1 i = Some p -> hex_index_to_coord up s0 s1 j = Some p' ->
+  (In (i, j) (snd (brick_adj up true s0 s1)) <-> hex_dist4 up p p' = 4).
+Proof.
+  intros H0 H1 Hi Hj Ei Ej.
+  assert (NS : hex_nsites s0 s1 = brick_nsites up true s0 s1) by (unfold brick_nsites, hex_nsites; reflexivity).
+  rewrite NS in Hi, Hj.
+  destruct (brick_roundtrip up true s0 s1 i H0 H1 Hi) as [r [c [E1 [E2 _]]]].
+  destruct (brick_roundtrip up true s0 s1 j H0 H1 Hj) as [r' [c' [E3 [E4 _]]]].
+  unfold hex_index_to_coord in Ei, Ej. rewrite E1 in Ei. rewrite E3 in Ej. injection Ei as <-. injection Ej as <-.
+  rewrite (brick_adjacency_iff up true s0 s1 i j r c r' c' H0 H1 Hi Hj E1 E3).
+  rewrite sq_nn_unit_distance. unfold brick_surplus. rewrite E2, E4. intuition discriminate.
+Qed.
+
+(** matrix size *)
+Theorem brick_adj_size up del s0 s1 : 1 <= s0 -> 1 <= s1 -> fst (brick_adj up del s0 s1) = brick_nsites up del s0 s1.
+Proof.
+  intros H0 H1. rewrite brick_adj_unfold. cbv zeta. unfold brick_delete_extra, brick_disconnect_extra.
+  destruct (brick_extra up s0 s1) eqn:EX.
+  - destruct del.
+    + rewrite (brick_nsites_del_extra up s0 s1 H0 H1 EX). unfold brick_delete_positions, brick_extra in *.
+      destruct (brick_sq up s0 s1) as [q0 q1]. destruct up; rewrite EX; cbn [fold_left fst snd]; rewrite !fst_np_delete; cbn [fst]; lia.
+    + rewrite (brick_nsites_nodel_extra up s0 s1 H0 H1 EX). unfold brick_disconnect_positions, brick_extra in *.
+      destruct (brick_sq up s0 s1) as [q0 q1]. destruct up; rewrite EX; cbn [fold_left fst snd]; rewrite !fst_np_zero; reflexivity.
+  - rewrite (brick_nsites_noextra up del s0 s1 H0 H1 EX). unfold brick_delete_positions, brick_disconnect_positions, brick_extra in *.
+    destruct (brick_sq up s0 s1) as [q0 q1]. destruct del, up; rewrite EX; reflexivity.
+Qed.
+
+(** every written pair is inside the matrix *)
+Theorem brick_adj_range up del s0 s1 i j : 1 <= s0 -> 1 <= s1 ->
+  In (i, j) (snd (brick_adj up del s0 s1)) ->
+  0 <= i < brick_nsites up del s0 s1 /\ 0 <= j < brick_nsites up del s0 s1.
+Proof.
+  intros H0 H1. rewrite brick_adj_unfold. cbv zeta. unfold brick_delete_extra, brick_disconnect_extra.
+  pose proof (sq_pairs_range up s0 s1) as RG.
+  destruct (brick_extra up s0 s1) eqn:EX.
+  - destruct del.
+    + rewrite (brick_nsites_del_extra up s0 s1 H0 H1 EX). unfold brick_delete_positions. unfold brick_extra in EX. destruct up; zb.
+      * pose proof (renum_up s0 s1 H0 EX) as [_ R2]. rewrite (brick_sq_up s0 s1 EX) in *. cbn [fst snd] in *.
+        replace (1 <? s1) with true by lia. cbn [fold_left].
+        set (qa := (2 * s0 + 2 - 1) * (s1 + 1)) in *.
+        set (qb := norm_idx ((2 * s0 + 2) * (s1 + 1) - 1) (if (s1 + 1) mod 2 =? 0 then -1 else s1 + 1 - 1)) in *.
+        assert (NA : norm_idx ((2 * s0 + 2) * (s1 + 1)) qa = qa) by (apply norm_idx_nonneg; unfold qa; nia).
+        rewrite (in_np_delete' _ _ qb) by reflexivity.
+        intros [k' [l' [H [N1 [N2 [-> ->]]]]]].
+        apply (in_np_delete' _ _ qa) in H; [|exact NA]. destruct H as [k [l [H [M1 [M2 [-> ->]]]]]]. cbn [fst snd] in *.
+        destruct (RG _ _ H) as [Bk Bl].
+        destruct (R2 k Bk) as [Rk _]; [intros [D|D]; [apply M1, D|apply N1, D]|].
+        destruct (R2 l Bl) as [Rl _]; [intros [D|D]; [apply M2, D|apply N2, D]|]. auto.
+      * pose proof (renum_left s0 s1 EX H1) as [_ R2]. rewrite (brick_sq_left s0 s1 EX) in *. cbn [fst snd] in *.
+        replace (1 <? s0) with true by lia. cbn [fold_left].
+        set (qa := 2 * s1 + 2 - 1) in *.
+        set (qb := norm_idx ((s0 + 1) * (2 * s1 + 2) - 1) (if (s0 + 1) mod 2 =? 1 then (s0 + 1 - 1) * (2 * s1 + 2) - 1 else -1)) in *.
+        assert (NA : norm_idx ((s0 + 1) * (2 * s1 + 2)) qa = qa) by (apply norm_idx_nonneg; unfold qa; lia).
+        rewrite (in_np_delete' _ _ qb) by reflexivity.
+        intros [k' [l' [H [N1 [N2 [-> ->]]]]]].
+        apply (in_np_delete' _ _ qa) in H; [|exact NA]. destruct H as [k [l [H [M1 [M2 [-> ->]]]]]]. cbn [fst snd] in *.
+        destruct (RG _ _ H) as [Bk Bl].
+        destruct (R2 k Bk) as [Rk _]; [intros [D|D]; [apply M1, D|apply N1, D]|].
+        destruct (R2 l Bl) as [Rl _]; [intros [D|D]; [apply M2, D|apply N2, D]|]. auto.
+    + rewrite (brick_nsites_nodel_extra up s0 s1 H0 H1 EX). unfold brick_disconnect_positions, brick_extra in *.
+      destruct (brick_sq up s0 s1) as [q0 q1]. cbn [fst snd] in *.
+      destruct up; rewrite EX; cbn [fold_left]; rewrite !in_np_zero; intros [[H _] _]; apply RG, H.
+  - rewrite (brick_nsites_noextra up del s0 s1 H0 H1 EX). unfold brick_delete_positions, brick_disconnect_positions, brick_extra in *.
+    destruct (brick_sq up s0 s1) as [q0 q1]. cbn [fst snd] in *. destruct del, up; rewrite EX; cbn [fold_left snd]; apply RG.
+Qed.
+
+Lemma sq_nn_sym up r c r' c' : sq_nn up r c r' c' -> sq_nn up r' c' r c.
+Proof. rewrite !sq_nn_unit_distance. unfold hex_dist4. destruct up; intros H; rewrite <- H; ring. Qed.
+
+Lemma sq_nn_irrefl up r c : ~ sq_nn up r c r c.
+Proof. rewrite sq_nn_unit_distance. unfold hex_dist4. destruct up; intros H; ring_simplify in H; lia. Qed.
+
+Theorem brick_adjacency_symmetric up del s0 s1 i j : 1 <= s0 -> 1 <= s1 ->
+  In (i, j) (snd (brick_adj up del s0 s1)) -> In (j, i) (snd (brick_adj up del s0 s1)).
+Proof.
+  intros H0 H1 H. destruct (brick_adj_range _ _ _ _ _ _ H0 H1 H) as [Hi Hj].
+  destruct (brick_roundtrip up del s0 s1 i H0 H1 Hi) as [r [c [E1 _]]].
+  destruct (brick_roundtrip up del s0 s1 j H0 H1 Hj) as [r' [c' [E3 _]]].
+  apply (brick_adjacency_iff up del s0 s1 i j r c r' c') in H; try assumption.
+  apply (brick_adjacency_iff up del s0 s1 j i r' c' r c); try assumption.
+  destruct H as [N [S S']]. auto using sq_nn_sym.
+Qed.
+
+Theorem brick_adjacency_irreflexive up del s0 s1 i : 1 <= s0 -> 1 <= s1 ->
+  ~ In (i, i) (snd (brick_adj up del s0 s1)).
+Proof.
+  intros H0 H1 H. destruct (brick_adj_range _ _ _ _ _ _ H0 H1 H) as [Hi _].
+  destruct (brick_roundtrip up del s0 s1 i H0 H1 Hi) as [r [c [E1 _]]].
+  apply (brick_adjacency_iff up del s0 s1 i i r c r c) in H; try assumption.
+  destruct H as [N _]. exact (sq_nn_irrefl _ _ _ N).
 Qed.
